@@ -11,12 +11,19 @@
      C05_followed    in-page boundaries are strictly increasing and lie strictly inside the page, so the
                      headings of a boundary are directly followed by the first data row of the new group.
    The page-top headings are group_values of the page's FIRST row (pc_pbinfo), rendered by top_headings
-   before the body (C06_order).  That the carried state equals the key of the previous row — the loop
-   invariant that turns these lemmas into "nearest preceding heading carries v_l(r)" — is validated on
-   the implementation by check_c05 (and by item-level correspondence), not proved. *)
+   before the body (C06_order).
+     C05_state       (Proofs/StateProofs.v) the LOOP INVARIANT: for every page, at every row j of the page, the
+                     heading state in force (the page's first-row values with every boundary up to j applied,
+                     which is the `last` that render_segments carries) agrees with row j on EVERY page_by level
+                     whose value is not the divider - so each boundary compares the new row with the true values
+                     of the rows above it, and by C05_changed / C05_forced every level whose text changed gets its
+                     heading, outer before inner (C05_order), directly above the first row of the group
+                     (C05_followed).
+   What is still checked rather than proved: the reading of these facts off the rendered ITEMS ("the nearest
+   preceding level-l heading row on the page shows v_l(r)"), which check_c05 evaluates on the implementation. *)
 From Coq Require Import Ascii String.
 From Coq Require Import List NArith ZArith QArith Bool Arith.
-From V Require Import Str Num Tok Items Doc Encode Paginate Pipeline HeadingProofs.
+From V Require Import Str Num Tok Items Doc Encode Paginate Pipeline HeadingProofs StateProofs.
 Import ListNotations.
 Local Open Scope string_scope.
 Local Open Scope list_scope.
@@ -56,6 +63,15 @@ Theorem C05_followed : forall f keys start len,
   /\ increasing (map fst (boundaries f keys start len)).
 Proof. intros. split; [apply boundaries_inside|apply boundaries_increasing]. Qed.
 Print Assumptions C05_followed.
+
+Theorem C05_state : forall f keys start len j row,
+  nth_error (firstn len (skipn start (f_rows f))) j = Some row ->
+  match firstn len (skipn start (f_rows f)) with
+  | r0 :: _ => agrees (f_cols f) keys (state_at (boundaries f keys start len) (group_values (f_cols f) keys r0) j) row
+  | [] => True
+  end.
+Proof. exact page_state_invariant. Qed.
+Print Assumptions C05_state.
 
 (* two levels, the outer one changes: both are rendered, outer first *)
 Example C05_example :
